@@ -192,27 +192,50 @@ fn check_c08(d: &Doc) -> Result<(), Fail> {
     Ok(())
 }
 fn check_c04(d: &Doc) -> Result<(), Fail> {
-    let text = doc_text(d);
-    let doc = match deb822_lossless::Deb822::from_str(&text) { Ok(x) => x, Err(_) => return Ok(()) };
+    let full = doc_text(d);
+    let mut variants = vec![full.clone()];
+    // the same document without its final newline (when the last line is a field line)
+    if full.ends_with('\n') && !full.ends_with("\n\n") && !d.paras.is_empty() && d.paras.last().unwrap().gap.is_empty() && d.paras.last().unwrap().trailing.is_empty() { variants.push(full[..full.len() - 1].to_string()); }
     let want = doc_content(d);
-    for (pi, wp) in want.iter().enumerate() {
-        for (op, key, val) in [("set", wp[0].0.clone(), "n1\nn2".to_string()), ("set", "Zz-New".to_string(), "v".to_string()), ("insert", wp[0].0.clone(), "i".to_string()), ("rename", wp[wp.len() - 1].0.clone(), "Renamed".to_string())] {
-            let doc = deb822_lossless::Deb822::from_str(&text).unwrap();
-            let mut p = doc.paragraphs().nth(pi).unwrap();
-            let mut m = wp.clone();
-            match op {
-                "set" => { p.set(&key, &val); match m.iter().position(|x| x.0 == key) { Some(i) => m[i].1 = val.clone(), None => m.push((key.clone(), val.clone())) } }
-                "insert" => { p.insert(&key, &val); m.push((key.clone(), val.clone())); }
-                _ => { let r = p.rename(&key, &val); let i = m.iter().position(|x| x.0 == key); if r != i.is_some() { report!("C04", &text, "rename result", format!("{}", i.is_some()), format!("{}", r)); } if let Some(i) = i { m[i].0 = val.clone(); } }
+    for text in &variants {
+        if deb822_lossless::Deb822::from_str(text).is_err() { continue; }
+        for (pi, wp) in want.iter().enumerate() {
+            for (op, key, val) in [("set", wp[0].0.clone(), "n1\nn2".to_string()), ("set", "Zz-New".to_string(), "v".to_string()), ("insert", wp[0].0.clone(), "i".to_string()),
+                                   ("rename", wp[wp.len() - 1].0.clone(), "Renamed".to_string()), ("remove", wp[0].0.clone(), String::new()), ("remove", wp[wp.len() - 1].0.clone(), String::new()), ("remove", "Zz-None".to_string(), String::new())] {
+                let doc = deb822_lossless::Deb822::from_str(text).unwrap();
+                let before_other: Vec<String> = doc.paragraphs().enumerate().filter(|(j, _)| *j != pi).map(|(_, q)| q.to_string()).collect();
+                let mut p = doc.paragraphs().nth(pi).unwrap();
+                let mut m = wp.clone();
+                let shown = format!("{:?} then paragraph {}: {}({:?}, {:?})", text, pi, op, key, val);
+                match op {
+                    "set" => { p.set(&key, &val); match m.iter().position(|x| x.0 == key) { Some(i) => m[i].1 = val.clone(), None => m.push((key.clone(), val.clone())) } }
+                    "insert" => { p.insert(&key, &val); m.push((key.clone(), val.clone())); }
+                    "remove" => { p.remove(&key); m.retain(|x| x.0 != key); }
+                    _ => { let r = p.rename(&key, &val); let i = m.iter().position(|x| x.0 == key); if r != i.is_some() { report!("C04", &shown, "rename result", format!("{}", i.is_some()), format!("{}", r)); } if let Some(i) = i { m[i].0 = val.clone(); } }
+                }
+                let got: Vec<(String, String)> = p.items().collect();
+                if got != m { report!("C04", &shown, "the paragraph is not what the list operation gives", format!("{:?}", m), format!("{:?}", got)); }
+                // handles obtained earlier see the edit; the other paragraphs are untouched
+                let via_doc: Vec<(String, String)> = doc.paragraphs().nth(pi).map(|q| q.items().collect()).unwrap_or_default();
+                if via_doc != m { report!("C04", &shown, "the document handle does not see the edit", format!("{:?}", m), format!("{:?}", via_doc)); }
+                let after_other: Vec<String> = doc.paragraphs().enumerate().filter(|(j, _)| *j != pi).map(|(_, q)| q.to_string()).collect();
+                if after_other != before_other { report!("C04", &shown, "another paragraph changed", format!("{:?}", before_other), format!("{:?}", after_other)); }
+                // the printed document re-reads, without error, to the same content
+                let out = doc.to_string();
+                let mut model_doc = want.clone(); model_doc[pi] = m.clone();
+                let model_doc: Vec<Vec<(String, String)>> = model_doc.into_iter().filter(|x| !x.is_empty()).collect();
+                match deb822_lossless::Deb822::from_str(&out) {
+                    Err(e) => report!("C04", &shown, "the printed document does not parse", "Ok".to_string(), format!("{:?} for {:?}", e, out)),
+                    Ok(d2) => {
+                        let again: Vec<Vec<(String, String)>> = d2.paragraphs().map(|q| q.items().collect()).collect();
+                        if again != model_doc { report!("C04", &shown, "printing and reading again gives different content", format!("{:?}", model_doc), format!("{:?} from {:?}", again, out)); }
+                    }
+                }
             }
-            let got: Vec<(String, String)> = p.items().collect();
-            if got != m { report!("C04", &text, &format!("{}({:?}, {:?}) on paragraph {} is not the list operation", op, key, val, pi), format!("{:?}", m), format!("{:?}", got)); }
         }
     }
-    let _ = doc;
     Ok(())
 }
-
 
 // ---------------------------------------------------------------------------------------------------------
 // C05: add / insert / remove paragraph against Vec push / insert(i) / remove(i) (histories of up to 3 operations,
